@@ -696,7 +696,7 @@ def run(chk: core.Check):
     _timed(chk, stage_links, rng, (30 if quick else 500))
     for f in chk.findings:
         chk.known(f, witness_fails(f["witness"]))
-    _timed(chk, stage_live, rng, (3 if quick else 25) * budget)
+    _timed(chk, stage_live, rng, (2 if quick else 25) * budget)
 
 
 # ----------------------------------------------------------------------------------------
@@ -1434,7 +1434,7 @@ def stage_live(chk, rng, runs):
             return 200, [("Content-Type", "application/json")], b"{}"
 
         try:
-            _, requests_seen = run_engine(live_schema(), responder, phases=["stateful"], max_examples=(6 if chk.tier == "quick" else 15), seed=rng.randrange(1, 10**6), checks=[], step_count=6)
+            _, requests_seen = run_engine(live_schema(), responder, phases=["stateful"], max_examples=(5 if chk.tier == "quick" else 15), seed=rng.randrange(1, 10**6), checks=[], step_count=6)
         except Exception as exc:  # noqa: BLE001
             chk.count(f"live:engine_error:{type(exc).__name__}")
             continue
